@@ -16,7 +16,7 @@ the session (`a` | `b`):
   `aC,<idhex>`   cancel        `aA,<n>`   x := n        `aX`   session thread ends     `aZ`   its timer sees Stop
   `T,<t>`        time passes to `t` and both timer threads run (session a first)
   `H,<ms>`       the distance to chrono's largest date (first operation of a script)
-Reply: `k:payload:time:via:sess,…` (or `.`) then ` pend=<a>,<b> err=<a>,<b> crash=<a>,<b>`.
+Reply: `k:payload:time:via:sess:idhex,…` (or `.`) then ` pend=<a>,<b> err=<a>,<b> crash=<a>,<b>`.
 -/
 namespace Driver.Timer
 open Rfsm Rfsm.Wire Rfsm.Timer
@@ -101,7 +101,8 @@ def runScript (script : String) : Option W :=
 
 def showDelivery (p : Nat × Delivery Ev) : String :=
   let pl := if p.2.seen.2.1 then s!"[{p.2.seen.2.2}]" else toString p.2.seen.2.2
-  s!"{p.2.entry.event.1}:{pl}:{p.2.time}:{if p.2.viaTimer then 1 else 0}:{p.1}"
+  let id := match p.2.entry.sendid with | some i => hex i | none => "-"
+  s!"{p.2.entry.event.1}:{pl}:{p.2.time}:{if p.2.viaTimer then 1 else 0}:{p.1}:{id}"
 
 def showRun (s : W) : String :=
   (if s.glog.isEmpty then "." else ",".intercalate (s.glog.map showDelivery)) ++
